@@ -257,6 +257,8 @@ theorem trust_store_only_configured : verifyCertStore = [
       `HMAC(HKDF-Expand-Label(BaseKey, "finished", "", Hash.length), Transcript-Hash)` where BaseKey
       is the READ traffic secret (`_dec_key`), on both roles; the server's expected value is the one
       computed by `_server_expect_finished`;
+    * (strings are in the extractor's canonical form: locals resolved to their definitions or
+      alpha-renamed `v0, v1, ..`, private expression helpers inlined — tools/tls_norm.py)
     * the refusal test is Python's `!=` on the two byte strings (entries `*.refuse_if`): exact
       equality, LENGTH INCLUDED — a shortened or lengthened `verify_data` / binder is refused like an
       altered one.  Any other comparison (a helper call, a prefix or constant-time loop without a length
@@ -273,19 +275,19 @@ theorem auth_values_are_rfc : authFlow = [
       ("sig.params", "*signature_algorithm_params(verify.algorithm)"),
       ("finished._client_handle_finished.received", "finished.verify_data"),
       ("finished._client_handle_finished.expected", "self.key_schedule.finished_verify_data(self._dec_key)"),
-      ("finished._client_handle_finished.refuse_if", "finished.verify_data != expected_verify_data"),
-      ("binder._server_handle_hello.expected", "self.key_schedule.finished_verify_data(binder_key)"),
-      ("binder._server_handle_hello.refuse_if", "binder != expected_binder"),
+      ("finished._client_handle_finished.refuse_if", "finished.verify_data != self.key_schedule.finished_verify_data(self._dec_key)"),
+      ("binder._server_handle_hello.expected", "self.key_schedule.finished_verify_data(self.key_schedule.derive_secret(b'res binder'))"),
+      ("binder._server_handle_hello.refuse_if", "input_buf.data_slice(v0 + 3, v0 + 3 + v1) != self.key_schedule.finished_verify_data(self.key_schedule.derive_secret(b'res binder'))"),
       ("finished._server_handle_finished.received", "finished.verify_data"),
       ("finished._server_handle_finished.expected", "self.key_schedule.finished_verify_data(self._dec_key)"),
-      ("finished._server_handle_finished.refuse_if", "finished.verify_data != self._expected_verify_data"),
+      ("finished._server_handle_finished.refuse_if", "finished.verify_data != self.key_schedule.finished_verify_data(self._dec_key)"),
       ("KeySchedule.certificate_verify_data", "return b' ' * 64 + context_string + b'\\x00' + self.hash.copy().finalize()"),
-      ("KeySchedule.finished_verify_data", "hmac_key = hkdf_expand_label(algorithm=self.algorithm, secret=secret, label=b'finished', hash_value=b'', length=self.algorithm.digest_size); h = hmac.HMAC(hmac_key, algorithm=self.algorithm); h.update(self.hash.copy().finalize()); return h.finalize()"),
+      ("KeySchedule.finished_verify_data", "v0 = hmac.HMAC(hkdf_expand_label(algorithm=self.algorithm, secret=secret, label=b'finished', hash_value=b'', length=self.algorithm.digest_size), algorithm=self.algorithm); v0.update(self.hash.copy().finalize()); return v0.finalize()"),
       ("KeySchedule.derive_secret", "return hkdf_expand_label(algorithm=self.algorithm, secret=self.secret, label=label, hash_value=self.hash.copy().finalize(), length=self.algorithm.digest_size)"),
       ("KeySchedule.update_hash", "self.hash.update(data)"),
-      ("_setup_traffic_protection", "key = self.key_schedule.derive_secret(label); if direction == Direction.ENCRYPT:     self._enc_key = key else:     self._dec_key = key; self.update_traffic_key_cb(direction, epoch, self.key_schedule.cipher_suite, key)"),
-      ("writers._enc_key", "__init__: None | _client_handle_finished: next_enc_key | _setup_traffic_protection: key"),
-      ("writers._dec_key", "__init__: None | _server_handle_finished: self._next_dec_key | _setup_traffic_protection: key"),
+      ("_setup_traffic_protection", "v0 = self.key_schedule.derive_secret(label); if direction == Direction.ENCRYPT:     self._enc_key = v0 else:     self._dec_key = v0; self.update_traffic_key_cb(direction, epoch, self.key_schedule.cipher_suite, v0)"),
+      ("writers._enc_key", "__init__: None | _client_handle_finished: self.key_schedule.derive_secret(b'c ap traffic') | _setup_traffic_protection: self.key_schedule.derive_secret(label)"),
+      ("writers._dec_key", "__init__: None | _server_handle_finished: self._next_dec_key | _setup_traffic_protection: self.key_schedule.derive_secret(label)"),
       ("writers._expected_verify_data", "_server_expect_finished: self.key_schedule.finished_verify_data(self._dec_key)"),
       ("CLIENT_CONTEXT_STRING", "TLS 1.3, client CertificateVerify"),
       ("SERVER_CONTEXT_STRING", "TLS 1.3, server CertificateVerify")] := rfl
